@@ -65,9 +65,10 @@ def lab(r, s):
 
 def gen_c12_case(rng: random.Random):
     kind = rng.choice(["industries", "industries", "regions_sectors", "regions_sectors", "series"])
-    impact = rng.choice([1.0, 100.0, 12345.678, 1e9, 0.5])
+    impact = rng.choice([1.0, 100.0, 12345.678, 1e9, 0.5, 0.05, 150000.0])
     bad = rng.random() < 0.3
-    case = {"kind": kind, "impact": impact, "event_type": rng.choice(["recovery", "rebuild"]), "bad": None}
+    case = {"kind": kind, "impact": impact, "event_type": rng.choice(["recovery", "rebuild"]), "bad": None,
+            "emf": rng.choice([10**6, 10**6, 1, 10**3])}
 
     def weights(keys, universe):
         mode = rng.choice(["equal", "exact", "superset", "unsorted", "unnormalised"])
@@ -76,7 +77,7 @@ def gen_c12_case(rng: random.Random):
         ks = list(keys)
         if mode == "superset":
             ks = list(dict.fromkeys(ks + rng.sample(universe, rng.randint(1, max(1, len(universe) // 2)))))
-        w = {k: rng.choice([1.0, 2.0, 0.5, 7.0, 0.25]) for k in ks}
+        w = {k: rng.choice([1.0, 2.0, 0.5, 7.0, 0.25, 1e-4, 3e-6]) for k in ks}
         if mode != "unnormalised":
             tot = sum(w.values())
             w = {k: v / tot for k, v in w.items()}
@@ -151,7 +152,7 @@ def gen_c12_case(rng: random.Random):
 
 
 def run_c12_impl(case):
-    kw = dict(occurrence=1, duration=1, event_monetary_factor=10**6)
+    kw = dict(occurrence=1, duration=1, event_monetary_factor=case.get("emf", 10**6))
     if case["event_type"] == "rebuild":
         kw.update(event_type="rebuild", rebuild_tau=10, rebuilding_sectors={"build": 1.0})
     else:
@@ -797,7 +798,10 @@ def explore_c17(tier, seed):
         rng = random.Random(s)
         scs = []
         for j in range(rng.choice([2, 3])):
-            sc = scen.gen_scenario(s * 10 + j, rng.choice(["shocked", "eventfree", "shocked"]), T=rng.choice([6, 8]), max_occ=3)
+            if j == 0:
+                sc = scen.gen_scenario(s * 10 + j, "shocked", T=rng.choice([6, 8]), max_occ=3, nev=3, types=["rebuild", "recovery", "arbitrary"])
+            else:
+                sc = scen.gen_scenario(s * 10 + j, rng.choice(["shocked", "eventfree", "shocked"]), T=rng.choice([6, 8]), max_occ=3)
             if known.match_scenario("C17", sc):
                 continue
             sc["sim"]["save_records"] = rng.choice([[], ["production_realised"], ["production_realised", "overproduction", "final_demand_unmet"]])
